@@ -25,7 +25,10 @@ Level 2 (SimulationResults): chunks become result sets with two named results;
 
 Level 3 (combine_simulation_results / combine_simulation_parameters): one or
     two unpacked parameters, every ordered pair of non-empty value subsets of a
-    3-element (x 2-element) universe, per-value histories; the union must hold,
+    3-element (x 2-element) universe, per-value histories, six value universes
+    (small ints; tiny floats; large floats a fine step / one ulp apart; strings
+    differing in case / by a suffix; equal values spelled int in one operand and
+    float in the other; numpy scalars vs Python scalars); the union must hold,
     per parameter combination and aligned with the union's unpack order, the
     reference statistics of "history in operand 1 followed by history in
     operand 2"; operands must be unchanged.
@@ -49,7 +52,10 @@ RULE = ("result level: every observation sequence of length <= L over the per-ty
         "merge_all_results / append_all_results x empty or non-empty accumulator x num_skipped_reps masks, and every "
         "mixed merge/append left fold (accumulator holding several results per name: only the last is merged); union "
         "level: every ordered pair of non-empty value subsets (49, x9 with a second unpacked parameter) x "
-        "per-value histories. Oracles: sufficient-statistics reference model, one object fed the whole "
+        "per-value histories x 6 value universes (small ints, tiny floats, large floats a step / one ulp apart, "
+        "case/suffix-confusable strings, int-vs-float and numpy-vs-Python spellings of equal values), with every "
+        "get_pack_indexes / get_result_values_list look-up by fixed value (present and absent, Python and numpy "
+        "scalar) checked against a brute-force filter on the union and on both operands. Oracles: sufficient-statistics reference model, one object fed the whole "
         "sequence, operand snapshots after every merge. A case is non-trivial when it executes at least one "
         "merge/append/combine; distinct = distinct (level, types, accumulate, observations, term)")
 
@@ -702,7 +708,7 @@ def set_cases(types_ok, L, tier):
     for ta in types_ok:
         for tb in types_ok:
             A, B = al[ta][:3], al[tb][:3]
-            for pairing in (0, 1):
+            for pairing in ((0, 1) if tier == "thorough" else (0,)):
                 letters = [{"a": A[i], "b": B[(i + pairing) % 3]} for i in range(3)]
                 for n in range(1, L + 1):
                     for idx in itertools.product(range(3), repeat=n):
@@ -733,8 +739,39 @@ def expand_set_case(item, L_skip):
 # ----------------------------------------------------------------------
 # union level
 # ----------------------------------------------------------------------
-XU = (1, 2, 3)
-YU = (10, 20)
+# Value universes of the unpacked parameters x (3 values) and y (2 values).
+# Besides plain small ints they hold the values on which a tolerance-based or
+# type-sloppy look-up goes wrong: tiny distinct floats (absolute tolerance),
+# large floats a few ulp / a fine step apart (relative tolerance), strings that
+# differ in case / by a suffix, equal values written as int in one operand and
+# as float in the other, numpy scalars in one operand and Python scalars in the
+# other.  A case names values by their RANK in the universe.
+UNIVERSES = {
+    "int": dict(X=(1, 2, 3), Y=(10, 20)),
+    "tiny_float": dict(X=(1e-9, 2e-9, 4e-9), Y=(1e-12, 3e-12)),
+    "large_close_float": dict(X=(2.4e9, 2.4e9 + 5e3, 2.4e9 + 1e4), Y=(1.0, 1.0 + 2.0 ** -52)),
+    "str": dict(X=("A", "a", "ab"), Y=("x", "xy")),
+    "int_vs_float": dict(X=(1, 2, 3), Y=(10, 20)),
+    "numpy_vs_python": dict(X=(0.5, 1.5, 2.5), Y=(10, 20)),
+}
+XU = UNIVERSES["int"]["X"]
+YU = UNIVERSES["int"]["Y"]
+
+
+def represent(universe, which, axis, vals):
+    """the container / scalar types in which operand `which` stores the values"""
+    vals = list(vals)
+    if universe == "str":
+        return (vals if which == 0 else np.array(vals)) if axis == "x" else vals
+    if universe == "int_vs_float":
+        if axis == "x":
+            return vals if which == 0 else [float(v) for v in vals]
+        return np.array([float(v) for v in vals]) if which == 0 else vals
+    if universe == "numpy_vs_python":
+        if axis == "x":
+            return [np.float64(v) for v in vals] if which == 0 else vals
+        return vals if which == 0 else [np.int64(v) for v in vals]
+    return np.array(vals) if axis == "x" else vals
 
 
 def nonempty_subsets(u):
@@ -744,68 +781,150 @@ def nonempty_subsets(u):
     return out
 
 
-def hist(t, which, hv, x, y):
-    """deterministic per-value history: 1-2 observations of the type's alphabet"""
+def hist(t, which, hv, rx, ry):
+    """deterministic per-value history (by value RANK): 1-2 observations of the type's alphabet"""
     al = alphabets()[t][:3]
-    rx = XU.index(x)
-    ry = YU.index(y) if y is not None else 0
+    ry = ry or 0
     k = 2 * rx + ry + 3 * which + hv
     n = 1 + (rx + ry + which + hv) % 2
     return [al[(k + j) % 3] for j in range(n)]
 
 
-def build_operand(t, acc, which, hv, xs, ys, order, empty=False):
+def tag_of(rx, ry):
+    return 100 * (rx + 1) + (0 if ry is None else 10 * (ry + 1))
+
+
+def build_operand(t, acc, which, hv, universe, rxs, rys, order, empty=False):
+    """returns (SimulationResults, x ranks in stored order, y ranks or None)"""
     from pyphysim.simulations.parameters import SimulationParameters
     from pyphysim.simulations.results import SimulationResults
     R = _R()
-    xs = list(xs)
-    ys = None if ys is None else list(ys)
+    U = UNIVERSES[universe]
+    rxs = list(rxs)
+    rys = None if rys is None else list(rys)
     if order == "desc" and which == 1:
-        xs = xs[::-1]
-    pd = {"f": 7, "x": np.array(xs)}
-    if ys is not None:
-        pd["y"] = list(ys)
+        rxs = rxs[::-1]
+    pd = {"f": 7, "x": represent(universe, which, "x", [U["X"][r] for r in rxs])}
+    if rys is not None:
+        pd["y"] = represent(universe, which, "y", [U["Y"][r] for r in rys])
     p = SimulationParameters.create(pd)
     p.set_unpack_parameter("x")
-    if ys is not None:
+    if rys is not None:
         p.set_unpack_parameter("y")
     s = SimulationResults()
     s.set_parameters(p)
     # documented order: unpacked names sorted, cartesian product, last name fastest
-    for x in xs:
-        for y in (ys if ys is not None else [None]):
-            s.append_result(fed(t, acc, [] if empty else hist(t, which, hv, x, y), "r"))
+    for rx in rxs:
+        for ry in (rys if rys is not None else [None]):
+            s.append_result(fed(t, acc, [] if empty else hist(t, which, hv, rx, ry), "r"))
             tag = R("tag", R.SUMTYPE)
-            tag.update(100 * x + (y or 0))
+            tag.update(tag_of(rx, ry))
             s.append_result(tag)
-    return s
+    return s, rxs, rys
+
+
+def scalar_variants(v):
+    """the same value as the Python scalar and as the numpy scalar"""
+    return [v, np.asarray(v)[()]]
+
+
+def check_lookups(c, case, obj, label, universe, rxs, rys, tags):
+    """get_pack_indexes / get_result_values_list by fixed VALUE against a
+    brute-force filter over the documented enumeration order.  Every value of
+    the universe is asked for: present ones must give exactly the indexes whose
+    combination holds an EQUAL value, absent ones must raise ValueError (what
+    combine_simulation_results relies on)."""
+    U = UNIVERSES[universe]
+    combos = [(rx, ry) for rx in rxs for ry in (rys if rys is not None else [None])]
+    queries = [{"x": r} for r in range(len(U["X"]))]
+    if rys is not None:
+        queries += [{"y": r} for r in range(len(U["Y"]))]
+        queries += [{"x": a, "y": b} for a in range(len(U["X"])) for b in range(len(U["Y"]))]
+    for q in queries:
+        want = [i for i, (rx, ry) in enumerate(combos)
+                if ("x" not in q or rx == q["x"]) and ("y" not in q or ry == q["y"])]
+        for variant in (0, 1):
+            fixed = {}
+            if "x" in q:
+                fixed["x"] = scalar_variants(U["X"][q["x"]])[variant]
+            if "y" in q:
+                fixed["y"] = scalar_variants(U["Y"][q["y"]])[variant]
+            qcase = dict(case, lookup_on=label, query=q, query_as=("python", "numpy")[variant])
+            c.count("eval_value_lookups")
+            present = ("x" not in q or q["x"] in rxs) and ("y" not in q or q["y"] in (rys or []))
+            try:
+                got = obj.params.get_pack_indexes(dict(fixed))
+            except ValueError:
+                if present:
+                    c.fail(("get_pack_indexes", "present_value_not_found"), qcase,
+                           observed="ValueError", expected=want)
+                c.outcome("lookup_outcomes", "absent_raises")
+                continue
+            got = [int(i) for i in np.asarray(got).ravel().tolist()]
+            if not present:
+                c.fail(("get_pack_indexes", "absent_value_found"), qcase, observed=got,
+                       expected="ValueError (no combination holds this value)")
+                continue
+            if got != want:
+                c.fail(("get_pack_indexes", "wrong_indexes_for_fixed_values"), qcase, observed=got, expected=want)
+                continue
+            vals = obj.get_result_values_list("tag", fixed_params=dict(fixed))
+            if list(vals) != [tags[i] for i in want]:
+                c.fail(("get_result_values_list", "wrong_results_for_fixed_values"), qcase,
+                       observed=vals, expected=[tags[i] for i in want])
+            c.outcome("lookup_outcomes", ("found", len(want)))
+
+
+def values_equal_lists(got, want):
+    got = list(np.asarray(got).tolist()) if not isinstance(got, list) else list(got)
+    if len(got) != len(want):
+        return False
+    for g, w in zip(got, want):
+        if isinstance(w, str) or isinstance(g, str):
+            if not (isinstance(w, str) and isinstance(g, str) and str(g) == w):
+                return False
+        elif not (g == w):
+            return False
+    return True
 
 
 def run_union_case(c, case):
     from pyphysim.simulations.results import combine_simulation_results
     t, acc, hv = case["type"], case["acc"], case["hv"]
-    x1, x2, y1, y2 = case["x1"], case["x2"], case["y1"], case["y2"]
+    universe = case.get("universe", "int")
+    U = UNIVERSES[universe]
+    x1, x2, y1, y2 = case["x1"], case["x2"], case["y1"], case["y2"]     # value RANKS
     empty = bool(case.get("empty"))     # operands hold results that were never updated
     with c.guard(("combine_simulation_results", t), case):
-        s1 = build_operand(t, acc, 0, hv, x1, y1, case["order"], empty)
-        s2 = build_operand(t, acc, 1, hv, x2, y2, case["order"], empty)
+        s1, ox1, oy1 = build_operand(t, acc, 0, hv, universe, x1, y1, case["order"], empty)
+        s2, ox2, oy2 = build_operand(t, acc, 1, hv, universe, x2, y2, case["order"], empty)
         snap1, snap2 = canon(vars(s1)), canon(vars(s2))
         u = combine_simulation_results(s1, s2)
         c.count("eval_union_cases")
         c.transitions += 1
         c.traces_validated += 1
-        c.nontriv(("u", t, acc, hv, repr((x1, x2, y1, y2)), case["order"]))
+        c.nontriv(("u", universe, t, acc, hv, repr((x1, x2, y1, y2)), case["order"]))
+        c.outcome("union_universes", universe)
         if canon(vars(s1)) != snap1 or canon(vars(s2)) != snap2:
             c.fail(("combine_simulation_results", "operand_mutated"), case,
                    observed="operand changed", expected="operands unchanged")
-        ux = sorted(set(x1) | set(x2))
-        uy = None if y1 is None else sorted(set(y1) | set(y2))
+        # the universes are listed in increasing order, so rank order = value order
+        urx = sorted(set(x1) | set(x2))
+        ury = None if y1 is None else sorted(set(y1) | set(y2))
+        ux = [U["X"][r] for r in urx]
+        uy = None if ury is None else [U["Y"][r] for r in ury]
+        if universe == "str":
+            ux = sorted(ux)
+            urx = [U["X"].index(v) for v in ux]
+            if uy is not None:
+                uy = sorted(uy)
+                ury = [U["Y"].index(v) for v in uy]
         P = u.params
         px = P.parameters.get("x")
-        if px is None or list(np.asarray(px).tolist()) != ux:
+        if px is None or not values_equal_lists(px, ux):
             c.fail(("combine_simulation_parameters", "unpacked_values"), case, observed=px, expected=ux)
             return
-        if uy is not None and list(np.asarray(P.parameters.get("y")).tolist()) != uy:
+        if uy is not None and not values_equal_lists(P.parameters.get("y"), uy):
             c.fail(("combine_simulation_parameters", "unpacked_values"), case,
                    observed=P.parameters.get("y"), expected=uy)
             return
@@ -815,7 +934,7 @@ def run_union_case(c, case):
         if P.unpacked_parameters != (["x", "y"] if uy is not None else ["x"]):
             c.fail(("combine_simulation_parameters", "unpack_marks"), case,
                    observed=P.unpacked_parameters, expected="x[,y]")
-        combos = [(x, y) for x in ux for y in (uy if uy is not None else [None])]
+        combos = [(rx, ry) for rx in urx for ry in (ury if ury is not None else [None])]
         if set(u.get_result_names()) != {"r", "tag"}:
             c.fail(("combine_simulation_results", "result_names"), case,
                    observed=u.get_result_names(), expected=["r", "tag"])
@@ -825,10 +944,13 @@ def run_union_case(c, case):
                    observed=(len(u["r"]), len(u["tag"])), expected=len(combos))
             return
         outcome = []
-        for i, (x, y) in enumerate(combos):
-            in1 = x in x1 and (y is None or y in y1)
-            in2 = x in x2 and (y is None or y in y2)
-            obs = (hist(t, 0, hv, x, y) if in1 else []) + (hist(t, 1, hv, x, y) if in2 else [])
+        utags = []
+        for i, (rx, ry) in enumerate(combos):
+            x = U["X"][rx]
+            y = None if ry is None else U["Y"][ry]
+            in1 = rx in x1 and (ry is None or ry in y1)
+            in2 = rx in x2 and (ry is None or ry in y2)
+            obs = (hist(t, 0, hv, rx, ry) if in1 else []) + (hist(t, 1, hv, rx, ry) if in2 else [])
             if empty:
                 obs = []
             ref = Ref(t, obs)
@@ -839,49 +961,72 @@ def run_union_case(c, case):
                 c.fail(("combine_simulation_results", t, field), dict(case, combo=[x, y]),
                        observed=o, expected=e,
                        msg="combination x=%r y=%r present in operand1=%s operand2=%s" % (x, y, in1, in2))
-            tagv = (100 * x + (y or 0)) * (int(in1) + int(in2))
+            tagv = tag_of(rx, ry) * (int(in1) + int(in2))
+            # a combination present in neither operand holds a never-updated result
+            utags.append(tagv if (in1 or in2) else "Nothing yet")
             got = u["tag"][i]._value
             if got != tagv:
                 c.fail(("combine_simulation_results", "alignment_with_unpack_order"),
                        dict(case, combo=[x, y]), observed=got, expected=tagv,
-                       msg="result list is not aligned with the union's unpacked parameter order")
-            # second view: the library's own lookup by fixed parameter values
-            fp = {"x": x} if y is None else {"x": x, "y": y}
-            view = u.get_result_values_list("tag", fixed_params=fp)
-            if in1 or in2:
-                if len(view) != 1 or view[0] != tagv:
-                    c.fail(("combine_simulation_results", "get_result_values_list_view"),
-                           dict(case, combo=[x, y]), observed=view, expected=[tagv])
+                       msg="result list is not aligned with the union's unpacked parameter order "
+                           "(or a combination received the results of another value)")
             c.outcome("final_stats", ref.key())
         c.outcome("union_presence_patterns", tuple(outcome))
+        # look-ups by fixed value on the combined object and on both operands.
+        # They do not depend on the result type / accumulation (quick tier: SUM
+        # and MISC without accumulation); an operand's own look-ups do not
+        # depend on the other operand: done while the other one is the first subset
+        if case.get("lookups", True):
+            first = lambda xr, yr: xr == [0] and yr in (None, [0])      # noqa: E731
+            with c.guard(("lookup_by_fixed_value",), case):
+                check_lookups(c, case, u, "union", universe, urx, ury, utags)
+                if first(x2, y2):
+                    check_lookups(c, case, s1, "operand1", universe, ox1, oy1,
+                                  [tag_of(rx, ry) for rx in ox1 for ry in (oy1 if oy1 is not None else [None])])
+                if first(x1, y1):
+                    check_lookups(c, case, s2, "operand2", universe, ox2, oy2,
+                                  [tag_of(rx, ry) for rx in ox2 for ry in (oy2 if oy2 is not None else [None])])
 
 
 def union_cases(types_ok, tier):
-    xs = nonempty_subsets(XU)
-    ys = nonempty_subsets(YU)
+    xs = nonempty_subsets((0, 1, 2))
+    ys = nonempty_subsets((0, 1))
     if "CHOICE" not in types_ok:
         # CHOICE results cannot be updated on this tree, but they can still be
         # constructed, stored and combined: never-updated operands
         for x1 in xs:
             for x2 in xs:
-                yield {"level": "union", "type": "CHOICE", "acc": False, "hv": 0, "order": "asc",
-                       "x1": x1, "x2": x2, "y1": None, "y2": None, "empty": True}
-    hvs = (0, 1, 2) if tier == "thorough" else (0,)
+                yield {"level": "union", "universe": "int", "type": "CHOICE", "acc": False, "hv": 0,
+                       "order": "asc", "x1": x1, "x2": x2, "y1": None, "y2": None, "empty": True}
     orders = ("asc", "desc")
-    for t in types_ok:
-        for acc in (False, True):
-            for hv in hvs:
-                for order in orders:
-                    for x1 in xs:
-                        for x2 in xs:
-                            if order == "desc" and len(x2) < 2:
-                                continue
-                            yield {"level": "union", "type": t, "acc": acc, "hv": hv, "order": order,
-                                   "x1": x1, "x2": x2, "y1": None, "y2": None}
-                            for y1 in ys:
-                                for y2 in ys:
-                                    yield {"level": "union", "type": t, "acc": acc, "hv": hv,
-                                           "order": order, "x1": x1, "x2": x2, "y1": y1, "y2": y2}
+    for universe in UNIVERSES:
+        one_param_only = ()
+        if universe == "int":
+            types, accs = list(types_ok), (False, True)
+            hvs = (0, 1, 2) if tier == "thorough" else (0,)
+        elif tier == "thorough":
+            types, accs, hvs = list(types_ok), (False,), (0, 1)
+        else:
+            # the value look-up does not depend on the result type: two types suffice in the quick tier
+            types, accs, hvs = [t for t in ("SUM", "MISC") if t in types_ok], (False,), (0,)
+            one_param_only = ("MISC",)      # MISC (last wins = operand order) with one unpacked parameter only
+        for t in types:
+            for acc in accs:
+                for hv in hvs:
+                    for order in orders:
+                        for x1 in xs:
+                            for x2 in xs:
+                                if order == "desc" and len(x2) < 2:
+                                    continue
+                                base = {"level": "union", "universe": universe, "type": t, "acc": acc,
+                                        "hv": hv, "order": order, "x1": x1, "x2": x2,
+                                        "lookups": not acc and (tier == "thorough" or t in ("SUM", "MISC"))}
+                                yield dict(base, y1=None, y2=None)
+                                if t in one_param_only:
+                                    continue
+                                for y1 in ys:
+                                    for y2 in ys:
+                                        yield dict(base, y1=y1, y2=y2)
 
 
 # ----------------------------------------------------------------------
@@ -972,10 +1117,15 @@ def main(chk: Check):
     chk.sample({"level": "set", "types": ["SUM", "MISC"], "acc": False,
                 "obs": [{"a": [1], "b": ["a"]}, {"a": [2.5], "b": [7]}], "chunks": [[0, 1], [1, 2]],
                 "tree": [[0, 1], 2], "op": "merge", "empty_acc": True})
-    chk.sample({"level": "union", "type": "SUM", "x1": [1, 2], "x2": [2, 3], "y1": [10], "y2": [10, 20]})
+    chk.sample({"level": "union", "universe": "tiny_float", "type": "SUM", "x1": [0, 1, 2], "x2": [1, 2],
+                "y1": [0], "y2": [0, 1], "values": UNIVERSES["tiny_float"]})
+    chk.extra["union_value_universes"] = {k: [list(map(repr, v["X"])), list(map(repr, v["Y"]))]
+                                          for k, v in UNIVERSES.items()}
     chk.require_outcomes("term_shapes", 20)
     chk.require_outcomes("final_stats", 50)
     chk.require_outcomes("union_presence_patterns", 20)
+    chk.require_outcomes("union_universes", len(UNIVERSES))
+    chk.require_outcomes("lookup_outcomes", 4)
     chk.require_outcomes("set_states", 50)
     chk.require_outcomes("fold_list_lengths", 4)
 
@@ -992,5 +1142,6 @@ def replay(case, chk: Check):
         run_fold_case(chk, case)
     elif lvl == "union":
         case = dict(case)
-        case.pop("combo", None)
+        for k in ("combo", "lookup_on", "query", "query_as"):
+            case.pop(k, None)
         run_union_case(chk, case)
